@@ -86,7 +86,10 @@ class History:
         toks = [tok_from_json(j) for j in s["tokens"]]
         spec = dl.spec_spelling(toks, s.get("seps"))
         meanings = [t.meaning() for t in toks]
-        ann = annotation(s["cat"], s["at"], spec)
+        try:
+            ann = annotation(s["cat"], s["at"], spec)
+        except BaseException as e:  # noqa: BLE001
+            raise Violation("build", self.case(), f"building {s['cat']}[{s['at']}, {spec!r}] (a legal spec of the documented grammar) raised {type(e).__name__}: {e}")
         if s.get("nonarray") is not None:
             value = ga.NON_ARRAYS[s["nonarray"]]
             type_ok = dtype_ok = False
